@@ -261,6 +261,16 @@ def oracle(ctx, rng, n):
     combos = [(l, t, m + "/" + tt) for l in LEN for t in TEMP for m in MFR_M for tt in MFR_T]
     for ci in range(n):
         case = maximal_case(rng)
+        if ci % 2 == 1:
+            # every other problem leaves the optional lengths of the [Setup] section to their defaults (step request, dump interval,
+            # cut-off of the low-flow approximation with the approximation switched on): a default is a length, too, and must
+            # come out the same whatever unit the rest of the input is written in
+            case['setup'].pop('axial_mesh_size', None)
+            case['setup'].pop('conv_approx_dz_cutoff', None)
+            case['setup']['conv_approx'] = True
+            if 'Dump' in case['setup']:
+                case['setup']['Dump'].pop('interval', None)
+            ctx.count("problems_with_default_setup_lengths")
         d0 = str(ctx.work / ("u%d_si" % ci))
         try:
             ref = load_input(case, d0)
